@@ -151,6 +151,17 @@ CLAIMED = {
         "label assignments (empty / tiny classes), all four methods and all outputs.",
    note="Trusted: as C16, plus tf.argmax is the first maximiser; the distance to the +inf NUN placeholder is modelled as +inf (false for cosine: known finding C17-kleor-cosine-nan).",
    design="5 (C17)", technique="Coq proofs (running top-k with admissibility masks, reuse of the C16 merge/uniqueness lemmas) + differential correspondence"),
+ "C07": dict(
+   text="19 machine-checked theorems: the executable model of Lime.explain hands to its interpretable model, for every batch size, exactly (Z, [score(input masked by z "
+        "with the reference value)], [kernel argument of (x, masked z)]) in row order, and returns coef o mapping; Euclidean and cosine kernel arguments; default "
+        "references and maps; KernelShap: probability vector P(k) ~ (F-1)/(k(F-k)), the sampler construction yields exactly k active features for k in 1..F-1, additive "
+        "scores give affine targets, OLS exactness under full column rank, efficiency, end-to-end exactness; F=2 proved structurally singular (known finding). Tied to /repo "
+        "with a recording estimator and recording model (exact y / queries / explanations, tolerance-based weights), sampler replay on recorded TF draws, end-to-end "
+        "KernelShap on additive models. Lime cosine sign defect refuted, reproduced, fixed.",
+   note="Trusted: Coq kernel + vm_compute; hand-written model; score row-wise; fit, sqrt and image segmentation abstract; Z, the random rows, drawn sizes and argsort "
+        "permutations are inputs (nothing distributional is proved); rank-deficient KernelShap designs skipped and counted; default image segmentations not exercised; "
+        "F=2 inexactness is known finding C07-kshap-F2.",
+   design="5 (C07)", technique="Gallina model over Qc, induction over batches, index arithmetic, Permutation/StronglySorted counting, least-squares sum-of-squares argument; vm_compute correspondence with recording estimator / model / TF random functions"),
 }
 PENDING_REASON = "check not built yet in this session (work in progress; planned in DESIGN.md section 5)"
 
